@@ -44,6 +44,7 @@ MIX = {  # kind -> (quick, thorough)
     "dealt-value-calls": (16, 500),
     "jump0": (8, 300),
     "hash-bound": (16, 500),
+    "bool-ops": (24, 800),
 }
 UNKNOWN_PS = [0.0, 0.0, 0.1, 0.5, 1.0]
 TIMEOUTS = [0.001, 0.001, 0.001, 0.001, 0, 0.3]
@@ -166,6 +167,49 @@ def make_case(kind, rng):
         case = diffcore.Case({0x1000: asm(toks)}, ncd=2, label=kind, gen_features=["hash-bound:" + shape])
         # inputs that make the sum wrap around (y = -c - 1, -1, ...) and some that do not
         case.extra_cd = [[(2**256 - c - 1) % 2**256, 7], [2**256 - 1, 0], [2**256 - c, 1], [0, 2], [1, 3], [2**255, 2**255]]
+        return case
+    if kind == "bool-ops":
+        # compiler-style repeated range checks: an atom is decided by an earlier branch, later branches test OR / AND combinations
+        # that contain the same atom again (syntactically identical) together with atoms that are still open
+        def atom(k):
+            v = [4, "CALLDATALOAD"] if k[0] == "x" else [36, "CALLDATALOAD"]
+            c = k[2]
+            return {"gt": v + [c, "LT"], "lt": v + [c, "GT"], "eq": v + [c, "EQ"]}[k[1]]  # c < v, c > v, v == c
+        consts = [rng.choice([0, 1, 3, 5, 100, 2**128, 2**255, 2**256 - 1]) for _ in range(4)]
+        atoms = [(rng.choice("xy"), rng.choice(["gt", "lt", "eq"]), c) for c in consts]
+        toks = []
+        nret = [0]
+
+        def ret():
+            nret[0] += 1
+            return [0x10 + nret[0], 0x200, "MSTORE", 0x20, 0x200, "RETURN"]
+        # first decide atoms[0] (and sometimes atoms[1]) by plain branches
+        decided = [0] if rng.random() < 0.6 else [0, 1]
+        for d in decided:
+            neg = rng.random() < 0.5
+            toks += atom(atoms[d]) + (["ISZERO"] if neg else []) + [f"@d{d}", "JUMPI"]
+        # then combinations
+        for j in range(rng.randrange(1, 4)):
+            members = rng.sample(range(4), rng.choice([2, 2, 3]))
+            if not set(members) & set(decided):
+                members[0] = rng.choice(decided)
+            rng.shuffle(members)
+            op = rng.choice(["OR", "OR", "AND"])
+            e = atom(atoms[members[0]])
+            for m in members[1:]:
+                e = e + atom(atoms[m]) + [op]
+            if rng.random() < 0.3:
+                e += ["ISZERO"]
+            toks += e + [f"@c{j}", "JUMPI"]
+        toks += ret()
+        for d in decided:
+            toks += [f":d{d}"] + ret()
+        for j in range(3):
+            if f"@c{j}" in toks:
+                toks += [f":c{j}"] + ret()
+        case = diffcore.Case({0x1000: asm(toks)}, ncd=2, label=kind, gen_features=["bool-ops"])
+        pts = sorted({(c + d) % 2**256 for c in consts for d in (-1, 0, 1)})
+        case.extra_cd = [[a, b] for a in pts for b in rng.sample(pts, min(3, len(pts)))]
         return case
     if kind == "calltree":
         return calltree.make_tree_case(rng)
